@@ -26,6 +26,7 @@ type SpecEnv struct {
 	exec      *Exec
 	lemma     bool     // lemma mode: calls to contract functions apply their contracts
 	outer     *SpecEnv // the environment outside old(...), for now(...)
+	prev      *State   // state at the start of the current loop iteration (prev(e) in step clauses)
 	facts     *[]Term  // type facts of heap values read while evaluating (outside quantifiers)
 }
 
@@ -489,6 +490,26 @@ func (e *SpecEnv) call(x *SCall) Value {
 					}
 					if cur != nil {
 						return cur(name)
+					}
+					return Value{}, false
+				}
+			}
+			return c.eval(x.Args[0])
+		case "prev":
+			if e.prev == nil {
+				e.fail("prev() is only available in loop step clauses")
+			}
+			c := e.child()
+			c.st = e.prev
+			c.prev = nil
+			if e.exec != nil {
+				ps := e.prev
+				ex := e.exec
+				c.lookup = func(name string) (Value, bool) {
+					if obj, ok := ex.names[name]; ok && obj != nil {
+						if v, ok := ps.vars[obj]; ok {
+							return v, true
+						}
 					}
 					return Value{}, false
 				}
